@@ -36,6 +36,19 @@ def mcs_case(inp):
         m2.find_common_subgraph(G1, G2, mcs=mcs)
         runs.append({"impl": "mtg", "mcs": mcs, "hasdir": False, "size": int(m2.last_size),
                      "g1g2": [pairs(x, i1, i2) for x in m2.get_mappings()], "g2g1": []})
+    # one matcher object used for an earlier, larger search (the graph against itself) and then for this pair:
+    # the answer may not depend on what the object was asked before
+    m = M1(node_attrs=NODE_ATTRS, node_defaults=["*", 0])
+    m.find_common_subgraph(G1, G1.copy(), mcs=True)
+    m = m.find_common_subgraph(G1, G2, mcs=True)
+    runs.append({"impl": "matcher-reused", "mcs": True, "hasdir": True, "size": int(m.last_size),
+                 "g1g2": [pairs(x, i1, i2) for x in m.get_mappings("G1_to_G2")],
+                 "g2g1": [pairs(x, i2, i1) for x in m.get_mappings("G2_to_G1")]})
+    m2 = M2(node_label_names=NODE_ATTRS, node_label_defaults=["*", 0])
+    m2.find_common_subgraph(G1, G1.copy(), mcs=True)
+    m2.find_common_subgraph(G1, G2, mcs=True)
+    runs.append({"impl": "mtg-reused", "mcs": True, "hasdir": False, "size": int(m2.last_size),
+                 "g1g2": [pairs(x, i1, i2) for x in m2.get_mappings()], "g2g1": []})
     return {"G1": a1, "G2": a2, "runs": runs}
 
 
